@@ -8,6 +8,7 @@
       load/store rules (layer 2); widths from objdump's `<SIZE> PTR` annotation
   D2b the displacement of a memory operand is emitted as one (sign-extended) byte only where
       it is known to lie in [-128, 127]
+  D5  array pointers in OrcExecutor.arrays[] are loaded, stored and advanced at pointer width
   D3  who may store: array stores only in store rules, through the destination pointer
   D4  executor scratch slots written by generated code form a closed set
 Region counters, strides, rep-movs counts: NOT decided.
@@ -189,6 +190,7 @@ def run(ctx):
 
     # ---- D3 / D4 ---------------------------------------------------------------------
     d34(db, rep)
+    d5(db, rep)
 
 
 # ---------------------------------------------------------------------------
@@ -453,6 +455,64 @@ def _slot_of_args(args, sd):
                 if z.k == "OffsetOfExpr":
                     return unparse(z)[len("offsetof(OrcExecutor, "):-1]
     return None
+
+
+POINTER_MOVERS = ("orc_x86_emit_mov_memoffset_reg", "orc_x86_emit_mov_reg_memoffset", "orc_x86_emit_add_reg_memoffset",
+                  "orc_x86_emit_add_imm_memoffset", "orc_x86_emit_add_memoffset_reg")
+D5_EXCLUDED = {"orc_x86_assemble_copy": "dead code in this tree (reached only after a compile error, never encoded; see C12 EXCLUDED_ROWS)"}
+
+
+def d5(db, rep):
+    """D5: the array pointers kept in OrcExecutor.arrays[] are loaded, stored and advanced at pointer width.  A 4-byte add on
+    a 64-bit pointer slot loses the carry into the high half: the next row is accessed 4 GiB away from its array."""
+    n = 0
+    rows = [r for r in init_rows(db.tu("orcx86insn").global_("orc_x86_opcodes"))]
+    sizepos = {}
+    for g in list(db.tu("orcx86insn").main_functions()) + list(db.tu("orcx86").main_functions()):
+        pn = [p["name"] for p in g.params]
+        if "size" in pn:
+            sizepos[g.name] = (pn.index("size"), pn.index("index") if "index" in pn else None)
+    for f in db.all_functions():
+        if not (f.relfile.startswith("orc/") and ("x86" in f.relfile or "sse" in f.relfile or "avx" in f.relfile or "mmx" in f.relfile)):
+            continue
+        if f.name in D5_EXCLUDED:
+            continue
+        sd = single_defs(f)
+        for c in f.calls():
+            if c.name not in sizepos:
+                continue
+            a = c.args()
+            slot = _slot_of_args(a, sd)
+            if slot is None or not slot.startswith("arrays["):
+                continue
+            idx = slot[len("arrays["):-1]
+            if idx.startswith("ORC_VAR_T") or idx.startswith("ORC_VAR_C") or idx.startswith("ORC_VAR_P") or idx.startswith("ORC_VAR_A"):
+                continue        # scratch use of the upper slots (constants, accumulators): not array pointers
+            spos, ipos = sizepos[c.name]
+            # which instruction: the helper's own name, or the table row named by the opcode-index argument
+            mnem = None
+            if "_mov_" in c.name:
+                mnem = "mov"
+            elif ipos is not None and len(a) > ipos:
+                ia = strip_casts(a[ipos])
+                cands = [ia] if ia.k != "ConditionalOperator" else [strip_casts(ia.c[1]), strip_casts(ia.c[2])]
+                names = {rows[x.v]["name"] for x in cands if x is not None and x.v is not None and x.v < len(rows) and isinstance(rows[x.v], dict)}
+                if len(names) >= 1:
+                    mnem = sorted(names)[0]
+            if mnem is None:
+                raise AnalysisBroken("%s: instruction of %s on arrays[%s] not identified" % (f.name, c.name, idx))
+            if not (mnem.startswith("add") or mnem.startswith("mov") or mnem.startswith("lea")):
+                continue        # sub/and/test/cmp into a register: alignment arithmetic on the low bits
+            size = strip_casts(a[spos])
+            ptrsize = size is not None and size.k == "ConditionalOperator" and unparse(strip_casts(size.c[0])).endswith("is_64bit") and \
+                strip_casts(size.c[1]).v == 8 and strip_casts(size.c[2]).v == 4
+            n += 1
+            rep.check(ptrsize, "D5-POINTER-WIDTH", where(f), "%s@arrays[%s]" % (mnem, idx),
+                      "array pointer slot accessed at pointer width (is_64bit ? 8 : 4)",
+                      "%s accesses the array pointer in OrcExecutor.arrays[%s] with `%s` of operand size `%s`: on x86-64 the upper half of the pointer is "
+                      "not updated/loaded, so the generated code reaches memory 4 GiB away from the array" % (f.name, idx, mnem, unparse(size)), line=c.line)
+    if n < 8:
+        raise AnalysisBroken("only %d pointer-slot accesses found" % n)
 
 
 def d34(db, rep):
